@@ -1071,11 +1071,13 @@ class Checker:
             raise SkipContract(str(e))
         except SkipContract:
             raise
+        except NameError as e:
+            # contract vocabulary the native checker does not implement (LP model clauses, cut_after, ...)
+            raise SkipContract(f"contract uses vocabulary not available natively: {e}")
         except Exception as e:
-            # the contract's pre-state part cannot be evaluated on this input
+            # the contract's pre-state part cannot be evaluated on this input: not a property violation
             res["cases"] += 1
-            self._violation(violations, "contract-evaluation/pre", "", args,
-                            f"evaluating the contract in the pre-state raised {type(e).__name__}: {e}", ci)
+            self.note_once(f"contract pre-state not evaluable on some inputs ({type(e).__name__}: {e})")
             return
         res["cases"] += 1
 
